@@ -259,6 +259,176 @@ def oracle_fit(ctx, thorough, forced=None):
     return None, case, reg.stop_reason_
 
 
+def series_with_weight(Am, Bm, weight):
+    """textbook series connection of the identified system (outputs = all lifted states) with a SISO filter replicated on every
+    input ('pre') or every output ('post'); built here, not with pykoop"""
+    n, m = Am.shape[0], Bm.shape[1]
+    Cm, Dm = np.eye(n), np.zeros((n, m))
+    if weight is None:
+        return Am, Bm, Cm, Dm
+    wk, Aw1, Bw1, Cw1, Dw1 = weight
+    r = m if wk == 'pre' else n
+    Aw, Bw, Cw, Dw = (blk(np.atleast_2d(np.asarray(M, dtype=float)), r) for M in (Aw1, Bw1, Cw1, Dw1))
+    if wk == 'post':
+        A = np.block([[Am, np.zeros((n, Aw.shape[0]))], [Bw @ Cm, Aw]])
+        B = np.vstack((Bm, Bw @ Dm))
+        C = np.hstack((Dw @ Cm, Cw))
+        D = Dw @ Dm
+    else:
+        A = np.block([[Aw, np.zeros((Aw.shape[0], n))], [Bm @ Cw, Am]])
+        B = np.vstack((Bw, Bm @ Dw))
+        C = np.hstack((Dm @ Cw, Cm))
+        D = Dm @ Dw
+    return A, B, C, D
+
+
+def own_snapshots(Xe, n_states):
+    """unshifted (states and inputs) and shifted (states) snapshot matrices of data with a leading episode column; written
+    here so that the singular values used to place a truncation do not come from the code under test"""
+    un, sh = [], []
+    seen = []
+    for e in Xe[:, 0]:
+        if e not in seen:
+            seen.append(e)
+    for e in seen:
+        b = Xe[Xe[:, 0] == e][:, 1:]
+        un.append(b[:-1])
+        sh.append(b[1:, :n_states])
+    return np.vstack(un), np.vstack(sh)
+
+
+def place_truncation(rng, sig, how=None):
+    """a Tsvd that REALLY truncates a matrix with the singular values sig (descending): a fixed rank below len(sig), or a
+    cutoff placed between two well separated singular values; returns (Tsvd, number of retained directions)"""
+    k = len(sig)
+    how = how or rng.choice(['rank', 'cutoff'])
+    r = rng.randint(1, k - 1)
+    if how == 'cutoff':
+        ok = [j for j in range(1, k) if sig[j] > 1e-8 * sig[0] and sig[j - 1] > 1.05 * sig[j]]
+        if ok:
+            r = rng.choice(ok)
+            return pykoop.Tsvd('cutoff', float(np.sqrt(sig[r - 1] * sig[r]))), r, 'cutoff'
+    return pykoop.Tsvd('rank', r), r, 'rank'
+
+
+TRUNC_ZPK = [([-0.5], [-3.0], 1.0, 'bilinear', 0.5), ([-0.5], [-3.0], 1.0, 'zoh', 0.5), ([-1.0], [-4.0], 2.0, 'bilinear', 0.25),
+             ([], [-2.0], 1.0, 'bilinear', 0.5)]
+
+
+def oracle_trunc(ctx, thorough, forced=None):
+    """LmiDmdcHinfReg with a tsvd_shifted (and sometimes a tsvd_unshifted) that really drops directions of the data - fitted
+    directly, as the regressor of a KoopmanPipeline, or wrapped in LmiHinfZpkMeta. The property is stated on the RETURNED
+    Koopman matrix over all lifted states: the system (A, B, I, 0), in series with the weight when one is given, has every
+    eigenvalue strictly inside the unit circle and an independently computed H-infinity norm not above gamma_; the logged
+    objective does not increase. forced = (route, weight kind, how the shifted SVD is truncated)"""
+    rng = ctx.rng
+    snap = ctx.snap()
+    route = rng.choice(['direct', 'pipeline', 'meta'])
+    wk = rng.choice([None, 'pre', 'post'])
+    how = None
+    if forced is not None:
+        route, wk, how = forced
+    if route == 'meta' and wk is None:
+        wk = rng.choice(['pre', 'post'])
+    nx, nu = rng.randint(2, 4), rng.randint(1, 2)
+    X, kw, _, _ = lc.lin_data(rng, nx, nu, radius=rng.choice([0.6, 0.9]), noise=0.02, n_min=30)
+    lift = None
+    lifting = None
+    if route == 'pipeline':
+        lift = rng.choice(['none', 'delay', 'poly'])
+        if lift == 'poly':
+            nx, nu = 2, 1
+            X, kw, _, _ = lc.lin_data(rng, nx, nu, radius=0.6, noise=0.02, n_min=30)
+            lifting = [('p', pykoop.PolynomialLiftingFn(order=2))]
+        elif lift == 'delay':
+            nx = 2          # four lifted states: a replicated second-order post weight stays small
+            X, kw, _, _ = lc.lin_data(rng, nx, nu, radius=rng.choice([0.6, 0.9]), noise=0.02, n_min=30)
+            lifting = [('d', pykoop.DelayLiftingFn(n_delays_state=1, n_delays_input=1))]
+    # the snapshot matrices the regressor will see (for the pipeline: after lifting), and their singular values
+    if lifting is None:
+        Psi, pt = X, nx
+    else:
+        pre = pykoop.KoopmanPipeline(lifting_functions=[(nm, lf) for nm, lf in lifting], regressor=pykoop.Edmd())
+        pre.fit(X, **kw)
+        Psi, pt = pre.transform(X), int(pre.n_states_out_)
+    un, sh = own_snapshots(Psi, pt)
+    sig_sh = np.linalg.svd(sh, compute_uv=False)
+    sig_un = np.linalg.svd(un, compute_uv=False)
+    case = {'oracle': 'trunc', 'family': 'dmdc', 'route': route, 'lift': lift, 'nx': nx, 'nu': nu, 'weight': wk, 'p_theta': pt,
+            'X': X.tolist(), 'replay': {'oracle': 'trunc', 'rng': snap, 'thorough': thorough, 'forced': forced}}
+    if pt < 2 or sig_sh[-1] <= 1e-8 * sig_sh[0]:
+        return None, case, 'data not of full rank'
+    ts_sh, r_sh, how = place_truncation(rng, sig_sh, how)
+    ts_un, r_un = None, un.shape[1]
+    if rng.random() < 0.4:
+        ts_un, r_un, _ = place_truncation(rng, sig_un)
+    weight = None
+    zpk = None
+    if route == 'meta':
+        z, p, g, disc, dt = rng.choice(TRUNC_ZPK)
+        zpk = (list(z), list(p), g, disc, dt)
+        ssd = scipy.signal.ZerosPolesGain(np.array(z, dtype=float), np.array(p, dtype=float), g).to_ss().to_discrete(dt, method=disc)
+        weight = (wk, ssd.A, ssd.B, ssd.C, ssd.D)
+    elif wk is not None:
+        if rng.random() < 0.5:
+            ssd = scipy.signal.ZerosPolesGain([-0.5], [-3.0], 1.0).to_ss().to_discrete(0.5, method='bilinear')
+            weight = (wk, ssd.A, ssd.B, ssd.C, ssd.D)
+        else:
+            weight = (wk, np.diag([0.6, -0.3]), np.array([[0.3], [0.2]]), np.array([[2.0, -3.0]]), np.array([[0.5]]))
+    args = dict(alpha=rng.choice([0.5, 1, 5]), ratio=rng.choice([0.5, 1]), max_iter=rng.choice([1, 2, 4]),
+                square_norm=rng.random() < 0.3, tsvd_shifted=ts_sh, tsvd_unshifted=ts_un, solver_params=dict(lc.SOLVER))
+    case.update(alpha=args['alpha'], ratio=args['ratio'], max_iter=args['max_iter'], square_norm=bool(args['square_norm']),
+                tsvd_shifted=[ts_sh.truncation, ts_sh.truncation_param], retained_shifted=int(r_sh),
+                tsvd_unshifted=None if ts_un is None else [ts_un.truncation, ts_un.truncation_param],
+                retained_unshifted=int(r_un), p=int(un.shape[1]), zpk=zpk)
+    try:
+        if route == 'direct':
+            reg = lmi.LmiDmdcHinfReg(weight=weight, **args)
+            reg.fit(X, **kw)
+            inner = reg
+        elif route == 'pipeline':
+            reg = lmi.LmiDmdcHinfReg(weight=weight, **args)
+            pipe = pykoop.KoopmanPipeline(lifting_functions=lifting, regressor=reg)
+            pipe.fit(X, **kw)
+            inner = pipe.regressor_
+        else:
+            est = lmi.LmiHinfZpkMeta(hinf_regressor=lmi.LmiDmdcHinfReg(**args), type=wk, zeros=zpk[0], poles=zpk[1], gain=zpk[2],
+                                     discretization=zpk[3], t_step=zpk[4], units='rad/s')
+            est.fit(X, **kw)
+            inner = est.hinf_regressor_
+            if not np.array_equal(est.coef_, inner.coef_):
+                return 'LmiHinfZpkMeta.coef_ differs from the wrapped regressor', case, None
+    except Exception as ex:
+        return None, case, 'fit did not complete: ' + type(ex).__name__
+    coef = np.asarray(inner.coef_, dtype=float)
+    name = {'direct': 'LmiDmdcHinfReg', 'pipeline': 'KoopmanPipeline(LmiDmdcHinfReg)', 'meta': 'LmiHinfZpkMeta(LmiDmdcHinfReg)'}[route]
+    name += f' with tsvd_shifted={ts_sh.truncation}:{ts_sh.truncation_param:g} keeping {r_sh} of {pt} lifted states'
+    if coef.shape != (un.shape[1], pt):
+        return f'{name}: coef_ has shape {coef.shape}, expected {(un.shape[1], pt)}', case, None
+    if not np.all(np.isfinite(coef)):
+        return f'{name}: coef_ is not finite', case, None
+    if not np.any(coef):
+        return None, case, inner.stop_reason_
+    U = coef.T
+    Am, Bm = U[:, :pt], U[:, pt:]
+    rad_plant = np.max(np.abs(np.linalg.eigvals(Am)))
+    if rad_plant >= 1 - 1e-9:
+        return f'{name}: the returned Koopman matrix is not asymptotically stable (spectral radius {rad_plant:.9f})', case, None
+    A, B, C, D = series_with_weight(Am, Bm, weight)
+    rad = np.max(np.abs(np.linalg.eigvals(A)))
+    if rad >= 1 - 1e-9:
+        return f'{name}: the weighted cascade is not asymptotically stable (spectral radius {rad:.9f})', case, None
+    norm = hinf_norm(A, B, C, D, 2000)
+    gamma = float(np.ravel(inner.gamma_)[0])
+    if norm > gamma * (1 + 1e-4) + 1e-7:
+        return f'{name}: true H-infinity norm {norm:.6f} exceeds the reported gamma_ {gamma:.6f}', case, None
+    log = inner.objective_log_
+    for a, b in zip(log, log[1:]):
+        if b > a + 1e-4 * max(1.0, abs(a)):
+            return f'{name}: logged objective increases from {a} to {b}', case, None
+    return None, case, inner.stop_reason_
+
+
 def meta_case(ctx, form=None):
     """LmiHinfZpkMeta: the weight handed to the wrapped regressor is the discretised state-space form of the zpk filter
     after the unit conversion; the fitted cascade obeys the gamma_ bound"""
@@ -323,10 +493,17 @@ def run(ctx):
                 'loop correspondence; (iii) cvxopt fits of both families with and without weights: stability and an '
                 'independently computed H-infinity norm (dense frequency sweep + refinement) vs gamma_; (iv) G(z)u at rational points of '
                 'the unit circle: exact rational solve in the Lean driver (hypotheses of brl_freq_real checked on the solution) vs complex '
-                'arithmetic, KoopmanRegressor.frequency_response and the H-infinity oracle')
+                'arithmetic, KoopmanRegressor.frequency_response and the H-infinity oracle; (v) LmiDmdcHinfReg with a tsvd_shifted '
+                '(rank below the number of lifted states, or a cutoff placed between two singular values computed here from own '
+                'snapshot matrices; sometimes a truncated tsvd_unshifted too) fitted directly, as the regressor of a KoopmanPipeline '
+                '(plain / delay / polynomial lifting) and inside LmiHinfZpkMeta, no / pre / post weight: the RETURNED Koopman matrix '
+                'over all lifted states and its own series connection with the weight have every |eig| < 1 - 1e-9, the independent '
+                'H-infinity norm stays below gamma_, the log is monotone')
     ctx.explanation = ('theorems C10_* (bounded-real core, dissipation, l2-gain over every horizon with no side condition, '
                        'stability from the 2x2 sub-block via C09, frequency-domain bound |G(z)u| <= gamma|u| on the whole unit circle: C10_hinf_norm); correspondence of LMI structure, series connection and '
-                       'loop; oracle: norm <= gamma_(1+1e-4), stability, monotone log')
+                       'loop; oracle: norm <= gamma_(1+1e-4), stability, monotone log - on full and on really truncated DMDc bases (C10_dmdc_lift: '
+                       'from rest the state of the returned model Q A_hat Q^T is Q times the reduced state; the oracle measures the '
+                       'spectrum of the returned matrix itself), on every route that returns coef_')
     ctx.assumptions = ["an 'optimal' solver answer satisfies its constraints up to tolerance (measured by the oracle)",
                        'scipy zpk -> state space and discretisation in LmiHinfZpkMeta: trusted']
     ctx.proof_obligations('Properties.C10', THEOREMS)
@@ -444,6 +621,26 @@ def run(ctx):
         ctx.count('fit:' + case['family'] + '/' + str(case['weight']))
         if why:
             ctx.fail(why, case, {'family': case['family'], 'weight': case['weight']})
+    # LmiDmdcHinfReg behind a shifted-data SVD that really drops directions: every route (direct / regressor of a pipeline,
+    # also behind delay and polynomial lifting / wrapped in LmiHinfZpkMeta) x every weight kind x rank / cutoff truncation in
+    # turn, then at random (with a truncated unshifted SVD in some of them)
+    forced_tr = [(r, w, h) for r in ('direct', 'pipeline', 'meta') for w in (None, 'pre', 'post') for h in ('rank', 'cutoff')
+                 if not (r == 'meta' and w is None)]
+
+    def _one_truncated(i):
+        why, case, note = oracle_trunc(ctx, ctx.tier == 'thorough', forced=forced_tr[i] if i < len(forced_tr) else None)
+        tr = (case.get('tsvd_shifted') or ['none'])[0]
+        ctx.count(f"truncated:{case['route']}/{case['weight']}/{tr}")
+        if case.get('tsvd_unshifted'):
+            ctx.count('truncated:unshifted SVD truncated as well')
+        if case.get('lift') not in (None, 'none'):
+            ctx.count('truncated:behind ' + case['lift'] + ' lifting')
+        ctx.count('truncated:' + ('completed' if note and str(note).startswith('Reached') else 'verdict' if why else str(note)[:60]))
+        ctx.record_case({k: v for k, v in case.items() if k not in ('X', 'replay')}, True)
+        if why:
+            ctx.fail(why, case, {'family': 'dmdc', 'weight': case['weight'], 'route': case['route'], 'truncated': True})
+    for i in range(ctx.n(6, 150) + len(forced_tr)):
+        ctx.attempt('truncated DMDc fit', lambda i=i: _one_truncated(i))
     for i in range(ctx.n(15, 90)):
         why, tag, note = meta_case(ctx, form=i)      # every argument form in turn, other options at random
         ctx.count('meta:' + tag['units'])
@@ -478,6 +675,10 @@ def replay(ctx, path):
         print('this replay carries no re-executable oracle call (broken proof / correspondence: see "broken")')
         return 1
     ctx.restore(r['rng'])
+    if r.get('oracle') == 'trunc':
+        why, case, note = oracle_trunc(ctx, r['thorough'], forced=None if r['forced'] is None else tuple(r['forced']))
+        print('oracle now:', why or 'property holds on this input', '' if note is None else f'({note})')
+        return 1 if why else 0
     why, case, note = oracle_fit(ctx, r['thorough'], forced=None if r['forced'] is None else tuple(tuple(x) if isinstance(x, list) and x and isinstance(x[0], list) else x for x in r['forced']))
     print('oracle now:', why or 'property holds on this input', '' if note is None else f'({note})')
     return 1 if why else 0
